@@ -189,6 +189,14 @@ impl<'a> Printer<'a> {
             }
             self.expr(p, L_EXPR);
         }
+        // a property list may end in a comma: written now and then where trivia is written
+        if !ps.is_empty() {
+            if let Some(r) = self.trivia.as_mut() {
+                if r.chance(1, 6) {
+                    self.tok(",");
+                }
+            }
+        }
         self.tok("}");
     }
 
